@@ -172,8 +172,6 @@ theorem runExtractor_abs (c : Cfg) (hx : NoExtractorPanic c) (f : Faults) (s : S
     · simp [h1, h2, abs, aBlock, openedCount, hits_zero]
     · simp only [h1, h2, hx e p]
       simp only [Bool.false_eq_true, if_false]
-      have : ∀ s' : St, abs (if (c.extract e p).err = true then { s' with errs := s'.errs ++ [e] } else s') = abs s' := by
-        intro s'; split <;> rfl
       split <;> simp [abs, aBlock, openedCount, hits_one] <;> split <;> split <;> simp_all
 
 /-- the loop over extractors makes exactly the attempts the specification lists for the file, never fails -/
